@@ -108,3 +108,7 @@ Proof.
   - unfold pm_physical, pm_example_collinear; cbn [p_wsx p_wsy p_wix p_wiy p_theta_s_e p_theta_i_e].
     rewrite cos_0. repeat split; lra.
 Qed.
+
+(* phasematch_fiber_coupling is one half of the quadrature of the integrand over [-1, 1] *)
+Lemma fiber_coupling_form Q p : pm_fiber_coupling Q p = Cmult (RtoC (1 / 2)) (Q (pm_integrand p) (-1) 1).
+Proof. unfold pm_fiber_coupling. do 2 f_equal. lra. Qed.
